@@ -56,8 +56,14 @@ def finding_matches(entry: dict, v: Violation, tier: str = "quick") -> bool:
     return True
 
 
+def out_root() -> str:
+    """Where evidence/ and replay/ go: /verif, unless VERIF_OUT names another directory (used by tools/try_mutant.py, so that
+    a run against a deliberately changed tree never overwrites the evidence of the registered checks)."""
+    return os.environ.get("VERIF_OUT") or VERIF
+
+
 def write_replay(prop: str, v: Violation) -> str:
-    d = os.path.join(VERIF, "replay", prop)
+    d = os.path.join(out_root(), "replay", prop)
     os.makedirs(d, exist_ok=True)
     rec = v.record(prop)
     blob = json.dumps(rec, sort_keys=True, default=str)
@@ -65,7 +71,7 @@ def write_replay(prop: str, v: Violation) -> str:
     path = os.path.join(d, name + ".json")
     with open(path, "w") as fh:
         json.dump(rec, fh, indent=1, sort_keys=True, default=str)
-    return os.path.relpath(path, VERIF)
+    return os.path.relpath(path, VERIF) if out_root() == VERIF else path
 
 
 def write_evidence(res: PropResult, ctx: Ctx, wall: float, n_viol: int, known_lines: list[str]) -> None:
@@ -127,8 +133,8 @@ def write_evidence(res: PropResult, ctx: Ctx, wall: float, n_viol: int, known_li
         "wall_s": round(wall, 2),
         "violations": n_viol,
     }
-    os.makedirs(os.path.join(VERIF, "evidence"), exist_ok=True)
-    path = os.path.join(VERIF, "evidence", f"{res.prop}.json")
+    os.makedirs(os.path.join(out_root(), "evidence"), exist_ok=True)
+    path = os.path.join(out_root(), "evidence", f"{res.prop}.json")
     tmp = path + ".tmp"
     with open(tmp, "w") as fh:
         json.dump(ev, fh, indent=1, default=str)
